@@ -1,5 +1,5 @@
-// C03 finding D17 (class "trace_in_flat_route"): a trace inside the longer operand of a "generalised matrix-vector" pattern.
-//   g++ -std=c++14 -O2 -msse2 -I/repo c03_d17_trace_in_flat_route.cpp && ./a.out      (any ISA)
+// C03 finding C03-F2 (class "trace_in_flat_route"): a trace inside the longer operand of a "generalised matrix-vector" pattern.
+//   g++ -std=c++14 -O2 -msse2 -I/repo c03_f2_trace_in_flat_route.cpp && ./a.out      (any ISA)
 // einsum<Index<0,0,1>,Index<1>>(a,b) denotes the scalar  r = sum_{i,j} a(i,i,j) * b(j).  internal::match_indices_from_end
 // (einsum_meta.h) only compares the overlapping tail of the two index lists (here <1> against <..,1>), so
 // is_generalised_matrix_vector is true and einsum.h executes the flat product  out[0..I*I) = A[(I*I) x J] * b  into the
